@@ -257,6 +257,11 @@ func (g *CG) Callees(site ssa.CallInstruction) (fns []*ssa.Function, external bo
 	if _, ok := c.Value.(*ssa.Builtin); ok {
 		return nil, false
 	}
+	if !c.IsInvoke() {
+		if lit, ok := mapLiteralClosures(c.Value); ok {
+			return lit, false
+		}
+	}
 	fns = edgesAt(g.vta, site)
 	if c.IsInvoke() {
 		// interface declared outside mq: the dynamic callee is the caller's
@@ -808,4 +813,88 @@ func stripChangeType(v ssa.Value) ssa.Value {
 			return v
 		}
 	}
+}
+
+// mapLiteralClosures: v is a value taken (by range or lookup) from a map that
+// is, provably, a map literal of closures — built right here or returned by a
+// statically called mq function whose every return is such a literal.  The
+// possible callees are then exactly those closures (no conflation with other
+// maps of the same type).
+func mapLiteralClosures(v ssa.Value) ([]*ssa.Function, bool) {
+	var m ssa.Value
+	switch x := v.(type) {
+	case *ssa.Extract:
+		switch t := x.Tuple.(type) {
+		case *ssa.Next:
+			if x.Index != 2 {
+				return nil, false
+			}
+			r, ok := t.Iter.(*ssa.Range)
+			if !ok {
+				return nil, false
+			}
+			m = r.X
+		case *ssa.Lookup:
+			if x.Index != 0 {
+				return nil, false
+			}
+			m = t.X
+		default:
+			return nil, false
+		}
+	case *ssa.Lookup:
+		m = x.X
+	default:
+		return nil, false
+	}
+	if _, ok := m.Type().Underlying().(*types.Map); !ok {
+		return nil, false
+	}
+	var lits []*ssa.MakeMap
+	switch y := m.(type) {
+	case *ssa.MakeMap:
+		lits = append(lits, y)
+	case *ssa.Call:
+		sc := y.Call.StaticCallee()
+		if sc == nil || sc.Blocks == nil {
+			return nil, false
+		}
+		for _, b := range sc.Blocks {
+			ret, ok := b.Instrs[len(b.Instrs)-1].(*ssa.Return)
+			if !ok {
+				continue
+			}
+			if len(ret.Results) != 1 {
+				return nil, false
+			}
+			mm, ok := ret.Results[0].(*ssa.MakeMap)
+			if !ok {
+				return nil, false
+			}
+			lits = append(lits, mm)
+		}
+	default:
+		return nil, false
+	}
+	var out []*ssa.Function
+	for _, mm := range lits {
+		for _, r := range *mm.Referrers() {
+			switch u := r.(type) {
+			case *ssa.MapUpdate:
+				if u.Map != ssa.Value(mm) {
+					return nil, false
+				}
+				mc, ok := u.Value.(*ssa.MakeClosure)
+				if !ok {
+					return nil, false
+				}
+				out = append(out, mc.Fn.(*ssa.Function))
+			case *ssa.Return, *ssa.DebugRef, *ssa.Range, *ssa.Lookup:
+			default:
+				return nil, false
+			}
+		}
+	}
+	sort.Slice(out, func(i, j int) bool { return out[i].String() < out[j].String() })
+	return out, true
 }
